@@ -35,6 +35,14 @@ type actor struct {
 	subs   *regScript
 	writes []*writeOp
 	extra  []RegOp // drop / entdrop operations
+	// pairs a peer asked a binding for (whatever the answer was): writes prefer them, so that a
+	// good share of the writes is authorised
+	asked map[string][]askedPair
+}
+
+type askedPair struct {
+	sf *LFeat
+	cf *PFeat
 }
 
 //go:norace
@@ -120,6 +128,10 @@ func (a *actor) run(p *Peer, nops int) {
 			ri.ctr = p.SendBind(cf, sf.Address(), sf.Type, false, "bind:valid")
 			a.binds.issued = append(a.binds.issued, ri)
 			await = ri.ctr
+			if a.asked == nil {
+				a.asked = map[string][]askedPair{}
+			}
+			a.asked[p.Name] = append(a.asked[p.Name], askedPair{sf, cf})
 		case k < 5: // unbind
 			ri := &regIssued{peer: p, op: RegOp{Kind: "unbind", Peer: p.Name, Client: AddrStr(cf.Address()), Server: AddrStr(sf.Address()), Desc: "delete"}}
 			ri.ctr = p.SendUnbind(cf.Address(), sf.Address(), "unbind")
@@ -133,6 +145,10 @@ func (a *actor) run(p *Peer, nops int) {
 			a.subs.issued = append(a.subs.issued, ri)
 			await = ri.ctr
 		case k < 13: // write
+			if l := a.asked[p.Name]; len(l) > 0 && w.T.Bool(2, 3, "write-where-binding-was-asked") {
+				ap := l[w.T.Choose(len(l), "asked-pair")]
+				sf, cf = ap.sf, ap.cf
+			}
 			if len(sf.Funcs) == 0 {
 				continue
 			}
